@@ -3,8 +3,8 @@ import itertools, json
 import vlib, gen, impl
 from props.c01 import VERSIONS
 
-MODULES = ['Hl7.Props.C07']
-THEOREMS = ['Hl7.EncChars.C07_reject_missing', 'Hl7.EncChars.C07_reject_duplicate', 'Hl7.EncChars.C07_accept', 'Hl7.EncChars.C07_header_roundtrip4']
+MODULES = ['Hl7.Props.C07', 'Hl7.Props.C07Casc']
+THEOREMS = ['Hl7.C07.C07_only_own_separators', 'Hl7.EncChars.C07_reject_missing', 'Hl7.EncChars.C07_reject_duplicate', 'Hl7.EncChars.C07_accept', 'Hl7.EncChars.C07_header_roundtrip4']
 ROLES = ['FIELD', 'COMPONENT', 'SUBCOMPONENT', 'REPETITION', 'ESCAPE', 'TRUNCATION']
 SAFE_PUNCT = [c for c in '!"#$%&\'()*,/:;<=>?@[\\]^`{|}~']     # no '.', '-', '+', '_' (they occur in the header's own values)
 
